@@ -163,6 +163,11 @@ func quoteS(in []pbt.S) string {
 // cases are ASCII so that the statement fixes the result.
 var cliUTF8 = profile{"utf8", append(append([]string{}, asciiPieces...), "é", "É", "ж", "Ж", "日")}
 
+// cliBackslash: literals that look like escape sequences. The expression given with -d is dissect
+// text, taken as typed: a backslash and the letter after it are two ordinary characters of a literal
+// (the lines hold the same two characters, and also the character the sequence would denote).
+var cliBackslash = profile{"ascii-backslash", append(append([]string{}, asciiPieces...), `\`, `\t`, `\n`, `\\`, `\x3d`, `\x3D`, `\u003d`, `\"`, `\`, "t", "n", "\t", "=", "x3d", `\%`)}
+
 func genCLI(t *rapid.T) CLICase {
 	ic := rapid.Bool().Draw(t, "ignoreCase")
 	pr := profile{"ascii", asciiPieces}
@@ -172,6 +177,10 @@ func genCLI(t *rapid.T) CLICase {
 	case 1:
 		if !ic {
 			pr = cliUTF8
+		}
+	case 2:
+		if rapid.Bool().Draw(t, "backslashes") {
+			pr = cliBackslash
 		}
 	}
 	g := genPattern(t, pr, ic)
@@ -203,7 +212,7 @@ func genCLI(t *rapid.T) CLICase {
 
 var cliSpec = pbt.Spec[CLICase]{
 	Property: "C12", Name: "cli",
-	Rule:   "the rare binary: `rare filter -d EXPR [-I] -e 'K|{0}|{1}|..|{name}..' file` on 1-12 generated printable lines (ASCII, all printable ASCII, or UTF-8 letters; ignore-case cases all-ASCII); oracle = multiset of keys the reference predicts for the matching lines (ignore-case: reference on lower-cased literals and line), expressions with errors refused with non-zero exit and empty stdout. Non-trivial: >=2 tokens and >=1 matching line; distinct by case JSON",
+	Rule:   "the rare binary: `rare filter -d EXPR [-I] -e 'K|{0}|{1}|..|{name}..' file` on 1-12 generated printable lines (ASCII, all printable ASCII, ASCII with backslash sequences such as \\t \\x3d \\\\ as literal text, or UTF-8 letters; ignore-case cases all-ASCII); oracle = multiset of keys the reference predicts for the matching lines (ignore-case: reference on lower-cased literals and line), expressions with errors refused with non-zero exit and empty stdout. Non-trivial: >=2 tokens and >=1 matching line; distinct by case JSON",
 	Budget: pbt.Budget{Quick: 1280, Thorough: 24000},
 	Gen:    genCLI, Check: checkCLI,
 	Classify: func(c CLICase) (bool, []string) {
